@@ -170,15 +170,15 @@ def build(ctx):
            note="all byte strings of length <= 7, loops fully unwound")
     kb.job("isValidGlobPattern.rule12", "h_valid_b", kind="bounded", unwind=15, defines=["NOCONTRACT", "LMAX=12"], replay="valid", tier="thorough",
            note="all byte strings of length <= 12, loops fully unwound", timeout=1500)
-    def gjob(name, lmax, extra, note, tier="quick", timeout=600):
+    def gjob(name, lmax, extra, note, tier="quick", timeout=600, mem_kb=None):
         # CBMC numbers loops by their back edges: matchglob.2 is the outer retry loop (one iteration per backtrack entry),
         # matchglob.1 scans the pattern, matchglob.0 skips in the name; a too small bound shows as *undecided*, never as a violation
         kb.job(name, "h_glob", kind="bounded", flags=["--sat-solver", "minisat2"], unwind=lmax + 3, unwindset=["matchglob.2:%d" % (16 if lmax <= 3 else 70)], no_std_checks=False,
-               defines=["NOCONTRACT", "LMAX=%d" % lmax] + extra, replay="glob", timeout=timeout, tier=tier, note=note)
+               defines=["NOCONTRACT", "LMAX=%d" % lmax] + extra, replay="glob", timeout=timeout, tier=tier, note=note, mem_kb=mem_kb)
     gjob("matchglob", 3, ["SMALL_ALPHABET"], "pattern and name of length <= 3 over the alphabet {* ? a b A} (the code inspects characters only through equality with the specials and each other)")
     gjob("matchglob.ci", 3, ["SMALL_ALPHABET", "CASEINS"], "case-insensitive mode, length <= 3, alphabet {* ? a b A}")
     gjob("matchglob.full3", 3, [], "pattern and name of length <= 3, all byte values", tier="thorough", timeout=3000)
-    gjob("matchglob.small4", 4, ["SMALL_ALPHABET"], "pattern and name of length <= 4 over {* ? a b A}", tier="thorough", timeout=3000)
+    gjob("matchglob.small4", 4, ["SMALL_ALPHABET"], "pattern and name of length <= 4 over {* ? a b A}", tier="thorough", timeout=3000, mem_kb=24 * 1024 * 1024)
     kb.job("cover", "h_cover", kind="cover", flags=["--sat-solver", "minisat2"], unwind=6, unwindset=["matchglob.2:16"], defines=["NOCONTRACT", "LMAX=3", "SMALL_ALPHABET"])
     kb.assumptions += ["std::string arguments have no embedded NUL (c_str() scanning stops at the first NUL)",
                        "std::stack<pair<const char*,const char*>> lowered to a fixed array of 8 entries with an asserted capacity",
